@@ -204,6 +204,11 @@ def handleC09 : List String → Option String
     some (match pyInt t with
       | some v => s!"ok {v}"
       | none => "err ValueError")
+  | ["c09.classify", ty, covers] => do
+    let ty ← ty.toNat?
+    let covers ← covers.toNat?
+    some (match classifyTC ty covers with
+      | .cname => "CNAME" | .neutral => "NEUTRAL" | .regular => "REGULAR")
   | ["c09.modify", text] => do
     let t ← ofHex text
     some (match parseModify t with
